@@ -397,6 +397,25 @@ def run(repo, chk):
                    "the parameter may be a Pattern object (add_junction documents 'str or Pattern'); a record filed under the object is invisible to get_usage(name), "
                    "so remove_pattern of a pattern in use is not refused", expected="<pattern>.name or a str", found=unparse(key))
 
+    # R-C14-6: a name identifies one element of its kind: every add_* refuses an existing name BEFORE it constructs anything
+    dup_sites = [("NodeRegistry", m, "self._data") for m in ("add_junction", "add_tank", "add_reservoir")] + \
+                [("LinkRegistry", m, "self._data") for m in ("add_pipe", "add_pump", "add_valve")] + \
+                [("PatternRegistry", "add_pattern", "self._data"), ("WaterNetworkModel", "add_source", "self._sources"), ("WaterNetworkModel", "add_control", "self._controls")]
+    for cname, meth, store in dup_sites:
+        fn = repo.func(MODEL, "%s.%s" % (cname, meth))
+        chk.fn(fn)
+        refusals = [n for n in walk(fn) if isinstance(n, ast.If) and any(isinstance(x, ast.Raise) for x in n.body) and isinstance(n.test, ast.Compare)
+                    and isinstance(n.test.ops[0], ast.In) and unparse(n.test.comparators[0]).replace(".keys()", "") == store]
+        builds = [c for c in calls(fn) if isinstance(c.func, ast.Name) and c.func.id[:1].isupper() and c.func.id not in ("ValueError", "RuntimeError", "LinkStatus")]
+        stores_ = [a for a in walk(fn) if isinstance(a, ast.Assign) and isinstance(a.targets[0], ast.Subscript) and unparse(a.targets[0].value) in ("self", store)]
+        first_effect = min([c.lineno for c in builds] + [a.lineno for a in stores_] or [10 ** 9])
+        okd = bool(refusals) and (refusals[0].lineno < first_effect or meth == "add_pattern")
+        chk.expect(okd, "R-C14-6", "%s.%s refuses a name that already exists before creating the element" % (cname, meth), loc(fn),
+                   "add_pipe('L', ..) followed by add_pump('L', ..) left 'L' in pipe_name_list and pump_name_list (num_pipes + num_pumps = 2, num_links = 1) and a stale usage record "
+                   "on the first link's nodes; a second source of the same name made its node impossible to remove", expected="if name in %s: raise ValueError" % store,
+                   found="%d refusal(s), first construction at line %s" % (len(refusals), first_effect))
+    chk.floor("R-C14-6", 9)
+
     # ---------------------------------------------------------------- R-C14-3
     for rname in ("NodeRegistry", "LinkRegistry", "CurveRegistry"):
         c = reg_classes[rname]
@@ -623,6 +642,7 @@ def abstract_setter(fn, which, param, s0, e0, new):
     return usage
 
 WITNESSES = [
+    dict(name="duplicate-source-name-accepted", file=MODEL, old='        if name in self._sources:\n            raise ValueError("Source name already exists")\n', new="", rule="R-C14-6"),
     dict(name="controls-removed-before-refusal", file=MODEL, old="        self._node_reg.__delitem__(name)\n        if not force and with_control:\n            for i in x:\n                self.remove_control(i)\n",
          new="        if not force and with_control:\n            for i in x:\n                self.remove_control(i)\n        self._node_reg.__delitem__(name)\n", rule="R-C14-4b"),
     dict(name="usage-before-end-node-lookup", file=BASE, old="        self._end_node = self._node_reg[end_node_name]\n        # Register the link as a user of both nodes\n        self._node_reg.add_usage(start_node_name, (link_name, self.link_type))\n",
